@@ -3,6 +3,8 @@ package main
 // Calls: builtins, contracts, inlining, interface dispatch, external stubs, frame inference.
 
 import (
+	"os"
+	"go/ast"
 	"fmt"
 	"go/token"
 	"go/types"
@@ -92,6 +94,9 @@ func (fe *FuncEnc) callStatic(f *Frame, callee *ssa.Function, args []Term, argVa
 		}
 	}
 	con := fe.eng.contracts[name]
+	if con != nil && con.Rejector {
+		fe.rejectSite(f, name, st, path, pos)
+	}
 	if con != nil && !con.Inline {
 		return fe.callByContract(f, callee, name, con, args, st, path, pos)
 	}
@@ -99,6 +104,79 @@ func (fe *FuncEnc) callStatic(f *Frame, callee *ssa.Function, args []Term, argVa
 		return fe.inline(f, callee, name, args, st, path, pos)
 	}
 	return fe.callHavoc(f, callee, name, args, st, path, pos)
+}
+
+// rejectSite: a call of a `rejector` (a function that refuses the input, e.g. the parser's error reporter).  The nearest
+// enclosing function that has a contract must have stated the reason: at the call, one of its `rejects` conditions holds.
+// This is the completeness half of "accepted iff derivable": a text is refused only for a reason the contract names.
+func (fe *FuncEnc) rejectSite(f *Frame, callee string, st *State, path Term, pos token.Pos) {
+	g := f
+	var gc *Contract
+	for g != nil {
+		if g.fn != nil {
+			if c := fe.eng.contracts[fe.eng.fnames[g.fn]]; c != nil {
+				gc = c
+				break
+			}
+		}
+		g = g.parent
+	}
+	if g == nil || gc == nil || gc.Rejector {
+		return
+	}
+	fe.rejectN++
+	short := callee[strings.LastIndex(callee, ".")+1:]
+	gname := fe.eng.fnames[g.fn]
+	gshort := gname[strings.LastIndex(gname, ".")+1:]
+	if len(gc.Rejects) == 0 {
+		fe.emit("reject", fmt.Sprintf("%s.%s@%d:undeclared", gshort, short, fe.rejectN), path, tBool(false), "the function refuses its input but its contract states no reason (`rejects`)", pos)
+		return
+	}
+	var ors []Term
+	var texts []string
+	// the named values of the enclosing function (to tell "not in scope at this site" from "renamed")
+	declared := map[string]bool{}
+	for _, b := range g.fn.Blocks {
+		for _, in := range b.Instrs {
+			switch x := in.(type) {
+			case *ssa.Phi:
+				declared[x.Comment] = true
+			case *ssa.DebugRef:
+				if id, ok := x.Expr.(*ast.Ident); ok {
+					declared[id.Name] = true
+				}
+			case *ssa.Alloc:
+				declared[x.Comment] = true
+			}
+		}
+	}
+	probe := &specCtx{fe: fe, f: g, cur: st, old: fe.entryFor(g), bound: map[string]TV{}}
+	for _, cl := range gc.Rejects {
+		cl.anyCand = true
+		texts = append(texts, cl.Text)
+		// a reason that speaks about a local which exists in the function but is not in scope at this site does not apply here
+		outOfScope := false
+		sels := map[*ast.Ident]bool{}
+		ast.Inspect(cl.Expr, func(n ast.Node) bool {
+			if se, ok := n.(*ast.SelectorExpr); ok {
+				sels[se.Sel] = true // a field name, not a value
+			}
+			if id, ok := n.(*ast.Ident); ok && declared[id.Name] && !sels[id] {
+				if _, found := probe.lookupByAnyName(id.Name); !found {
+					outOfScope = true
+					if os.Getenv("VERIF_DEBUG_REJECT") != "" {
+						fmt.Fprintf(os.Stderr, "reject: %s: %q not in scope for %q\n", gname, id.Name, cl.Text)
+					}
+				}
+			}
+			return true
+		})
+		if outOfScope {
+			continue
+		}
+		ors = append(ors, fe.evalClause(g, cl, st, fe.entryFor(g), nil, nil, pos))
+	}
+	fe.emit("reject", fmt.Sprintf("%s.%s@%d", gshort, short, fe.rejectN), path, tOr(ors...), "one of: "+strings.Join(texts, " | "), pos)
 }
 
 func (fe *FuncEnc) canInline(callee *ssa.Function, con *Contract) bool {
